@@ -320,6 +320,17 @@ package protocol
 //@   option timeout 240
 //@   loop 0 unroll 3
 
+// v1 wrapper with relative inner offsets (Kafka message-set documentation): the wrapper's own offset is the absolute offset
+// of its LAST inner message, the inner messages carry relative offsets 0..n-1; every inner offset is rewritten to
+// wrapperOffset - (n-1 - relative). Same rule as extractOffset on the Conn/Reader path (base = wrapper - last relative).
+//@ func (*RecordSet).readFromVersion1
+//@   option noframe
+//@   modifies heap
+//@   loop 2 invariant same(r.records, loopentry(r.records)) && -1 <= rangeindex && rangeindex < len(r.records)
+//@   loop 2 invariant forall j :: 0 <= j && j <= rangeindex ==> r.records[j].Offset == baseOffset - (int64(len(r.records)) - 1 - loopentry(r.records[j].Offset))
+//@   loop 2 invariant forall j :: rangeindex < j && j < len(r.records) ==> r.records[j].Offset == loopentry(r.records[j].Offset)
+//@   loop 2 after forall j :: 0 <= j && j < len(r.records) ==> r.records[j].Offset == baseOffset - (int64(len(r.records)) - 1 - loopentry(r.records[j].Offset))
+
 //@ property C04
 
 // Encoder selection: in a flexible version every string, byte string and array is compact; a nullable field keeps its null
